@@ -111,7 +111,7 @@ PROPS = {
         "timeout": 2400,
     },
     "C04": {
-        "lean_modules": ["JrpcProofs.Props.C04", "JrpcProofs.Lemmas.Corr", "JrpcProofs.Facts.Corr", "JrpcProofs.Facts.Backoff", "JrpcProofs.Facts.Writers", "JrpcProofs.Facts.Call"],
+        "lean_modules": ["JrpcProofs.Props.C04", "JrpcProofs.Lemmas.Corr", "JrpcProofs.Facts.Corr", "JrpcProofs.Facts.Backoff", "JrpcProofs.Facts.Writers", "JrpcProofs.Facts.Call", "JrpcProofs.Facts.OneShot"],
         "assumptions": [
             "hooks only delay goroutines; two log entries written by different goroutines around one channel rendezvous may come in either order and are reconciled by the replayer (tau steps are counted in the evidence)",
             "ids of calls that are inside doRequest at the same time differ (id counter; int64 to float64 keys are injective below 2^53 calls)",
